@@ -1,8 +1,342 @@
-//! DHCP and DNS message codecs (independent of smoltcp::wire).
+//! DHCPv4 and DNS message codecs (independent of smoltcp::wire).
 
-pub fn check_dhcp_wellformed(_b: &[u8]) -> Result<(), String> {
+// ---------------------------------------------------------------------------------------------
+// DHCPv4 (RFC 2131 / 2132)
+
+pub const DHCP_DISCOVER: u8 = 1;
+pub const DHCP_OFFER: u8 = 2;
+pub const DHCP_REQUEST: u8 = 3;
+pub const DHCP_DECLINE: u8 = 4;
+pub const DHCP_ACK: u8 = 5;
+pub const DHCP_NAK: u8 = 6;
+pub const DHCP_RELEASE: u8 = 7;
+pub const DHCP_INFORM: u8 = 8;
+
+#[derive(Clone, Debug, Default, PartialEq, Eq)]
+pub struct Dhcp {
+    pub op: u8,
+    pub xid: u32,
+    pub secs: u16,
+    pub flags: u16,
+    pub ciaddr: [u8; 4],
+    pub yiaddr: [u8; 4],
+    pub siaddr: [u8; 4],
+    pub giaddr: [u8; 4],
+    pub chaddr: [u8; 6],
+    /// raw options in order (code, data), without PAD/END
+    pub options: Vec<(u8, Vec<u8>)>,
+}
+
+impl Dhcp {
+    pub fn opt(&self, code: u8) -> Option<&Vec<u8>> {
+        self.options.iter().find(|(c, _)| *c == code).map(|(_, d)| d)
+    }
+    pub fn msg_type(&self) -> Option<u8> {
+        self.opt(53).and_then(|d| d.first().copied())
+    }
+    pub fn opt_u32(&self, code: u8) -> Option<u32> {
+        self.opt(code).filter(|d| d.len() == 4).map(|d| u32::from_be_bytes([d[0], d[1], d[2], d[3]]))
+    }
+    pub fn opt_ip(&self, code: u8) -> Option<[u8; 4]> {
+        self.opt(code).filter(|d| d.len() >= 4).map(|d| [d[0], d[1], d[2], d[3]])
+    }
+}
+
+pub fn dec_dhcp(b: &[u8]) -> Result<Dhcp, String> {
+    if b.len() < 240 {
+        return Err(format!("DHCP message of {} bytes shorter than the fixed part + cookie", b.len()));
+    }
+    if b[1] != 1 || b[2] != 6 {
+        return Err("htype/hlen not Ethernet".into());
+    }
+    if b[236..240] != [99, 130, 83, 99] {
+        return Err("magic cookie missing".into());
+    }
+    let mut d = Dhcp { op: b[0], xid: u32::from_be_bytes([b[4], b[5], b[6], b[7]]), secs: u16::from_be_bytes([b[8], b[9]]), flags: u16::from_be_bytes([b[10], b[11]]), ..Dhcp::default() };
+    d.ciaddr.copy_from_slice(&b[12..16]);
+    d.yiaddr.copy_from_slice(&b[16..20]);
+    d.siaddr.copy_from_slice(&b[20..24]);
+    d.giaddr.copy_from_slice(&b[24..28]);
+    d.chaddr.copy_from_slice(&b[28..34]);
+    let mut i = 240;
+    let mut ended = false;
+    while i < b.len() {
+        let c = b[i];
+        if c == 0 {
+            i += 1;
+            continue;
+        }
+        if c == 255 {
+            ended = true;
+            i += 1;
+            break;
+        }
+        if i + 2 > b.len() {
+            return Err("option header truncated".into());
+        }
+        let l = b[i + 1] as usize;
+        if i + 2 + l > b.len() {
+            return Err(format!("option {} overruns the message", c));
+        }
+        d.options.push((c, b[i + 2..i + 2 + l].to_vec()));
+        i += 2 + l;
+    }
+    if !ended {
+        return Err("END option missing".into());
+    }
+    if b[i..].iter().any(|x| *x != 0) {
+        return Err("non-zero bytes after END".into());
+    }
+    Ok(d)
+}
+
+pub fn enc_dhcp(d: &Dhcp) -> Vec<u8> {
+    let mut v = vec![0u8; 240];
+    v[0] = d.op;
+    v[1] = 1;
+    v[2] = 6;
+    v[4..8].copy_from_slice(&d.xid.to_be_bytes());
+    v[8..10].copy_from_slice(&d.secs.to_be_bytes());
+    v[10..12].copy_from_slice(&d.flags.to_be_bytes());
+    v[12..16].copy_from_slice(&d.ciaddr);
+    v[16..20].copy_from_slice(&d.yiaddr);
+    v[20..24].copy_from_slice(&d.siaddr);
+    v[24..28].copy_from_slice(&d.giaddr);
+    v[28..34].copy_from_slice(&d.chaddr);
+    v[236..240].copy_from_slice(&[99, 130, 83, 99]);
+    for (c, data) in &d.options {
+        v.push(*c);
+        v.push(data.len() as u8);
+        v.extend_from_slice(data);
+    }
+    v.push(255);
+    v
+}
+
+/// What C10 demands of an emitted DHCP client message.
+pub fn check_dhcp_wellformed(b: &[u8]) -> Result<(), String> {
+    let d = dec_dhcp(b)?;
+    if d.op != 1 {
+        return Err("client message with op != BOOTREQUEST".into());
+    }
+    let t = d.msg_type().ok_or("message type option missing")?;
+    if !(1..=8).contains(&t) {
+        return Err(format!("message type {}", t));
+    }
+    if let Some(m) = d.opt(57) {
+        if m.len() != 2 {
+            return Err("max message size option length".into());
+        }
+        let max = u16::from_be_bytes([m[0], m[1]]) as usize;
+        if b.len() > max {
+            return Err(format!("message of {} bytes larger than the announced maximum {}", b.len(), max));
+        }
+    }
+    for (c, data) in &d.options {
+        let want = match c {
+            50 | 54 | 1 => Some(4),
+            51 | 58 | 59 => Some(4),
+            53 => Some(1),
+            57 => Some(2),
+            _ => None,
+        };
+        if let Some(w) = want {
+            if data.len() != w {
+                return Err(format!("option {} with length {}", c, data.len()));
+            }
+        }
+    }
     Ok(())
 }
-pub fn check_dns_wellformed(_b: &[u8]) -> Result<(), String> {
+
+// ---------------------------------------------------------------------------------------------
+// DNS (RFC 1035)
+
+#[derive(Clone, Debug, PartialEq, Eq)]
+pub struct DnsQ {
+    pub name: Vec<String>,
+    pub qtype: u16,
+    pub qclass: u16,
+}
+#[derive(Clone, Debug, PartialEq, Eq)]
+pub struct DnsRr {
+    pub name: Vec<String>,
+    pub rtype: u16,
+    pub class: u16,
+    pub ttl: u32,
+    pub rdata: Vec<u8>,
+    /// for CNAME: the decoded target
+    pub target: Option<Vec<String>>,
+}
+#[derive(Clone, Debug, PartialEq, Eq)]
+pub struct Dns {
+    pub id: u16,
+    pub flags: u16,
+    pub questions: Vec<DnsQ>,
+    pub answers: Vec<DnsRr>,
+}
+
+pub const T_A: u16 = 1;
+pub const T_CNAME: u16 = 5;
+pub const T_AAAA: u16 = 28;
+
+fn dec_name(b: &[u8], mut i: usize) -> Result<(Vec<String>, usize), String> {
+    let mut labels = vec![];
+    let mut end = None;
+    let mut jumps = 0;
+    loop {
+        if i >= b.len() {
+            return Err("name truncated".into());
+        }
+        let l = b[i] as usize;
+        if l == 0 {
+            if end.is_none() {
+                end = Some(i + 1);
+            }
+            break;
+        }
+        if l & 0xc0 == 0xc0 {
+            if i + 1 >= b.len() {
+                return Err("pointer truncated".into());
+            }
+            let p = ((l & 0x3f) << 8) | b[i + 1] as usize;
+            if end.is_none() {
+                end = Some(i + 2);
+            }
+            jumps += 1;
+            if jumps > 64 {
+                return Err("pointer loop".into());
+            }
+            i = p;
+            continue;
+        }
+        if l & 0xc0 != 0 {
+            return Err("reserved label type".into());
+        }
+        if i + 1 + l > b.len() {
+            return Err("label truncated".into());
+        }
+        labels.push(String::from_utf8_lossy(&b[i + 1..i + 1 + l]).to_lowercase());
+        i += 1 + l;
+    }
+    Ok((labels, end.unwrap()))
+}
+
+pub fn dec_dns(b: &[u8]) -> Result<Dns, String> {
+    if b.len() < 12 {
+        return Err("shorter than the header".into());
+    }
+    let id = u16::from_be_bytes([b[0], b[1]]);
+    let flags = u16::from_be_bytes([b[2], b[3]]);
+    let qd = u16::from_be_bytes([b[4], b[5]]) as usize;
+    let an = u16::from_be_bytes([b[6], b[7]]) as usize;
+    let mut i = 12;
+    let mut questions = vec![];
+    for _ in 0..qd {
+        let (name, ni) = dec_name(b, i)?;
+        if ni + 4 > b.len() {
+            return Err("question truncated".into());
+        }
+        questions.push(DnsQ { name, qtype: u16::from_be_bytes([b[ni], b[ni + 1]]), qclass: u16::from_be_bytes([b[ni + 2], b[ni + 3]]) });
+        i = ni + 4;
+    }
+    let mut answers = vec![];
+    for _ in 0..an {
+        let (name, ni) = dec_name(b, i)?;
+        if ni + 10 > b.len() {
+            return Err("record truncated".into());
+        }
+        let rtype = u16::from_be_bytes([b[ni], b[ni + 1]]);
+        let class = u16::from_be_bytes([b[ni + 2], b[ni + 3]]);
+        let ttl = u32::from_be_bytes([b[ni + 4], b[ni + 5], b[ni + 6], b[ni + 7]]);
+        let rl = u16::from_be_bytes([b[ni + 8], b[ni + 9]]) as usize;
+        if ni + 10 + rl > b.len() {
+            return Err("rdata truncated".into());
+        }
+        let rdata = b[ni + 10..ni + 10 + rl].to_vec();
+        let target = if rtype == T_CNAME { dec_name(b, ni + 10).ok().map(|x| x.0) } else { None };
+        answers.push(DnsRr { name, rtype, class, ttl, rdata, target });
+        i = ni + 10 + rl;
+    }
+    Ok(Dns { id, flags, questions, answers })
+}
+
+pub fn enc_name(labels: &[String]) -> Vec<u8> {
+    let mut v = vec![];
+    for l in labels {
+        v.push(l.len() as u8);
+        v.extend_from_slice(l.as_bytes());
+    }
+    v.push(0);
+    v
+}
+
+/// Encoder for responses; `compress` points answer names back at the question name.
+pub fn enc_dns(d: &Dns, compress: bool) -> Vec<u8> {
+    let mut v = vec![];
+    v.extend_from_slice(&d.id.to_be_bytes());
+    v.extend_from_slice(&d.flags.to_be_bytes());
+    v.extend_from_slice(&(d.questions.len() as u16).to_be_bytes());
+    v.extend_from_slice(&(d.answers.len() as u16).to_be_bytes());
+    v.extend_from_slice(&[0, 0, 0, 0]);
+    let mut qname_at = None;
+    for q in &d.questions {
+        if qname_at.is_none() {
+            qname_at = Some((v.len(), q.name.clone()));
+        }
+        v.extend_from_slice(&enc_name(&q.name));
+        v.extend_from_slice(&q.qtype.to_be_bytes());
+        v.extend_from_slice(&q.qclass.to_be_bytes());
+    }
+    for r in &d.answers {
+        match (&qname_at, compress) {
+            (Some((at, n)), true) if *n == r.name => {
+                v.push(0xc0 | (*at >> 8) as u8);
+                v.push(*at as u8);
+            }
+            _ => v.extend_from_slice(&enc_name(&r.name)),
+        }
+        v.extend_from_slice(&r.rtype.to_be_bytes());
+        v.extend_from_slice(&r.class.to_be_bytes());
+        v.extend_from_slice(&r.ttl.to_be_bytes());
+        let rdata = match (&r.target, r.rtype) {
+            (Some(t), T_CNAME) => enc_name(t),
+            _ => r.rdata.clone(),
+        };
+        v.extend_from_slice(&(rdata.len() as u16).to_be_bytes());
+        v.extend_from_slice(&rdata);
+    }
+    v
+}
+
+/// What C10 demands of an emitted DNS query.
+pub fn check_dns_wellformed(b: &[u8]) -> Result<(), String> {
+    if b.len() < 12 {
+        return Err("shorter than the header".into());
+    }
+    let d = dec_dns(b)?;
+    if d.flags & 0x8000 != 0 {
+        return Err("a query with QR set".into());
+    }
+    if d.questions.len() != 1 {
+        return Err(format!("{} questions", d.questions.len()));
+    }
+    if u16::from_be_bytes([b[6], b[7]]) != 0 || u16::from_be_bytes([b[8], b[9]]) != 0 || u16::from_be_bytes([b[10], b[11]]) != 0 {
+        return Err("non-zero AN/NS/AR count in a query".into());
+    }
+    // reserved Z bits and RCODE must be zero in a query
+    if d.flags & 0x0070 != 0 || d.flags & 0x000f != 0 {
+        return Err("Z bits or RCODE set in a query".into());
+    }
+    for l in &d.questions[0].name {
+        if l.is_empty() || l.len() > 63 {
+            return Err("label length".into());
+        }
+    }
+    let q = &d.questions[0];
+    let qend = 12 + enc_name(&q.name).len() + 4;
+    if b.len() != qend {
+        return Err("trailing bytes after the question".into());
+    }
     Ok(())
 }
